@@ -30,7 +30,8 @@ L.TH.axiom(
 
 
 def KZ(P, w):
-    return RZ(P, Wof(w), LLCnd.len(P) - 1)
+    """Z-rank of world w; 0 for the empty partition (empty base: nothing can be falsified)"""
+    return z3.If(LLCnd.len(P) == 0, 0, RZ(P, Wof(w), LLCnd.len(P) - 1))
 
 
 RanksT = TDict(TOptional(TInt), TStr)
@@ -76,7 +77,6 @@ Contract(
     "inference.preocf:SystemZPreOCF.z_part2ocf",
     params={"self": ZOCF, "world": TStr},
     returns=TInt,
-    requires=lambda c: [LLCnd.len(_P_of(c)) >= 1],
     ensures=lambda c, r: [r.t == KZ(_P_of(c), c.world.t)],
     loops={
         0: LoopSpec(
@@ -111,7 +111,6 @@ Contract(
     defaults={"force_calculation": lambda ex: VBool(False)},
     returns=TInt,
     requires=lambda c: [
-        LLCnd.len(_P_of(c)) >= 1,
         mem_Str(_keys(c), c.world.t),
         cache_inv(c, _P_of(c), lambda w: KZ(_P_of(c), w)),
     ],
